@@ -24,13 +24,17 @@ Docs == <<
   [lines |-> <<F(3,0,4), F(1,0,1), BL, F(3,0,4), F(1,0,2), BL, F(3,0,5), F(1,0,3)>>, term |-> TRUE],
   [lines |-> <<F(3,0,5), H(1), BL, F(3,0,4), C(0,6), H(2), F(2,0,1)>>, term |-> FALSE],
   [lines |-> <<F(4,0,7), C(0,8), F(3,0,1)>>, term |-> TRUE],
-  [lines |-> <<>>, term |-> TRUE]
+  [lines |-> <<>>, term |-> TRUE],
+  [lines |-> <<F(3,0,1), F(2,1,0), C(1,2), F(1,0,3)>>, term |-> TRUE],
+  [lines |-> <<F(3,0,5), BL, F(3,0,4), H(1)>>, term |-> FALSE]
 >>
 VARIABLE case
 Next == UNCHANGED case
 Init == \E d \in 1..Len(Docs), ind \in {1, 4}, fnl \in BOOLEAN, iel \in BOOLEAN, one \in {0, 8, 200},
-           sp \in BOOLEAN, sf \in BOOLEAN, fmt \in {"none", "identity", "split"} :
+           sp \in BOOLEAN, sf \in BOOLEAN, fmt \in {"none", "identity", "split"}, wp \in BOOLEAN :
           /\ (fnl => ind = 1)
-          /\ case = [d |-> d, doc |-> Docs[d], set |-> [ind |-> ind, fnl |-> fnl, iel |-> iel, one |-> one, sp |-> sp, sf |-> sf, fmt |-> fmt]]
+          \* wp = FALSE: Deb822::wrap_and_sort without a paragraph rebuilder (paragraphs are only reordered and re-separated)
+          /\ (~wp => ind = 1 /\ ~fnl /\ ~iel /\ one = 0 /\ ~sf /\ fmt = "none")
+          /\ case = [d |-> d, doc |-> Docs[d], set |-> [ind |-> ind, fnl |-> fnl, iel |-> iel, one |-> one, sp |-> sp, sf |-> sf, fmt |-> fmt, wp |-> wp]]
 Emit == PrintT(<<"REPLAY", ToJson(case)>>)
 =============================================================================
